@@ -21,8 +21,10 @@ import (
 // observation = (failed-op history-answers fresh-answers)   answer = (status marker location)
 //   failed-op: index of the first operation that panicked (the history stops there), -1 if none
 
-var regRoots = []string{"/", "/a", "/a/", "/a/b", "/a/{id}", "/a/{id}/x", "/a/{id}/y", "/b", "/{v}", "/ab", "/users/{id}/a", "/users/{id}/b", "/b/c/"}
-var regRels = []string{"", "/", "/x", "/{k}", "/x/y", "/{k}/z"}
+// the root "" stands for a WebService on which Path is never called (Add gives it "/" lazily; routes built before
+// that see an empty root)
+var regRoots = []string{"/", "/a", "/a/", "/a/b", "/a/{id}", "/a/{id}/x", "/a/{id}/y", "/b", "/{v}", "/ab", "/users/{id}/a", "/users/{id}/b", "/b/c/", ""}
+var regRels = []string{"", "/", "/x", "/{k}", "/x/y", "/{k}/z", "x", "{k}"}
 var regPlain = []string{"/h", "/static/", "/static/css/", "/h/deep/", "/a/plainfile", "/zz"}
 
 type regService struct {
@@ -38,6 +40,16 @@ func genReg(r *Rng) Sx {
 	}
 	nroots := 2 + r.Intn(4)
 	roots := r.Shuffle(regRoots)[:nroots]
+	for i, rt := range roots {
+		if rt == "" { // "" and "/" are the same root: only one of them in a history
+			for j := range roots {
+				if roots[j] == "/" {
+					roots[j] = "/zz-other"
+				}
+			}
+			_ = i
+		}
+	}
 	if router == 1 {
 		// RouterJSR311 tables: the roots with a variable stay, they are legal there too
 	}
@@ -143,7 +155,9 @@ func runReg(raw Sx) (Sx, Sx) {
 	}
 	mkWS := func(root string) *restful.WebService {
 		ws := new(restful.WebService)
-		ws.Path(root)
+		if root != "" {
+			ws.Path(root)
+		}
 		ws.SetDynamicRoutes(true)
 		return ws
 	}
